@@ -29,7 +29,7 @@ Strings == { Str(S(x)) : x \in { "NULL", "null", "True", "FALSE", "END", "end", 
                   Str(S("two  spaces  between  words  in  a  long  string  that  must  be  wrapped  somewhere  around  here  or  there")),
                   Str(S("Aaaaaaaaaaaaaaaaaaaaaaaaaaaaaaaaaaaaaaaaaaaaaaaaaaaaaaaaaaaaaaaaaaaaaaaaaaaaaaaaaaaaaaaaaaaaaaaaaaaaaaaaaaaaaaa")) }
 Atoms == { N("null", <<>>, <<>>), N("bool", S("true"), <<>>), N("bool", S("false"), <<>>),
-           IntV("0"), IntV("-5"), IntV("9223372036854775808123"), RealV("-0.0"), RealV("1e+300"), RealV("1e-07"), RealV("0.1"), RealV("1.2345678901234567"), RealV("1500.0"), RealV("inf"), RealV("-inf"),
+           IntV("0"), IntV("-5"), IntV("9223372036854775808123"), RealV("-0.0"), RealV("1e+300"), RealV("1e-07"), RealV("0.1"), RealV("1.2345678901234567"), RealV("1500.0"), RealV("inf"), RealV("-inf"), RealV("-1e+16"), RealV("-2.5e+20"), RealV("1e+16"), RealV("1e-300"), IntV("-9223372036854775808"),
            T("date", "2001-01-01"), T("date", "0001-01-01"), T("date", "0999-12-31"), T("date", "9999-12-31"),
            T("time", "12:00:00.000000|naive"), T("time", "12:00:00.000000|utc"), T("time", "23:59:59.999999|utc"), T("time", "01:02:03.005000|utc"),
            T("time", "01:02:03.000005|utc"), T("time", "12:30:00.250000|utc"), T("time", "12:30:00.250000|naive"), T("time", "12:34:10.000000|utc"),
